@@ -1025,7 +1025,19 @@ impl<T: Transport + 'static> SyncEngine<T> {
                             }
                         }
 
-                        match transferrer.delete(&task.dest_path, is_dir).await {
+                        // The entry may already be gone because an earlier delete task of this run
+                        // removed its parent directory (remove_dir_all): that is a completed deletion,
+                        // not an error.
+                        let already_gone =
+                            !dry_run && std::fs::symlink_metadata(&task.dest_path).is_err();
+
+                        let delete_result = if already_gone {
+                            Ok(())
+                        } else {
+                            transferrer.delete(&task.dest_path, is_dir).await
+                        };
+
+                        match delete_result {
                             Ok(_) => {
                                 {
                                     let mut stats = stats.lock().unwrap();
